@@ -61,7 +61,7 @@ def _mutate(draw, kw, params):
 @st.composite
 def case(draw, optimizer, tier):
     params = registry.load()[optimizer]["params"]
-    cfg = draw(strategies.config_spec(optimizer, max_cycles=(1, 5), perturb=0.35))
+    cfg = draw(strategies.config_spec(optimizer, max_cycles=(1, 5), perturb=0.35, reverse_lists=True))
     kw = dict(params)
     kw.update(cfg)                      # early_stopping stays a plain dict / None
     payload = {"optimizer": optimizer, "dict": kw, "mutation": None}
